@@ -12,9 +12,10 @@ for f in sorted(glob.glob(os.path.join(V, "harness", "c[0-9]*_*.py"))):
 DEFAULT_NOTE = ("Trusted base: Amaranth 0.5.9 elaboration (build_netlist) and amaranth.sim, our netlist->C compiler (self-tested per cell kind and "
                 "cross-checked against amaranth.sim on explored traces every run), gcc, and the Python oracle/environment of the harness. "
                 "Decided only for the configurations, alphabets and bounds listed in the evidence.")
+claimed = set(open(os.path.join(V, 'tools', 'claimed.txt')).read().split())
 for p in props:
     pid = p["id"]
-    if pid in mods:
+    if pid in mods and pid in claimed:
         m = importlib.import_module("harness." + mods[pid])
         if getattr(m, "DISABLED", None):
             na.append(dict(property_id=pid, reason=m.DISABLED)); continue
